@@ -416,12 +416,16 @@ func c10Run(c *hx.Ctx, tier, unit string) {
 		for _, ty := range []uint16{0x0002, 0x0EF0, 0x0EF1} {
 			for pad := 0; pad <= 8; pad++ {
 				for _, pb := range []byte{0x00, 0x5c} {
-					if !c.Next() {
-						continue
+					// DER elements of every length 2..17 so that dwLength takes every residue mod 8 with every pad
+					for dl := 0; dl <= 15; dl++ {
+						if !c.Next() {
+							continue
+						}
+						der0 := append([]byte{0x30, byte(dl)}, fill(dl, 0x02)...)
+						body := append(der0, bytes.Repeat([]byte{pb}, pad)...)
+						w := refauth.WinCert{Length: uint32(8 + len(body)), Revision: 0x0200, Type: ty, Body: body}
+						c10WinCert(c, w.Bytes(), fill(16, 0x31), "DER body with trailing bytes inside dwLength")
 					}
-					body := append([]byte{0x30, 0x06, 0x02, 0x01, 0x01, 0x04, 0x01, 0xaa}, bytes.Repeat([]byte{pb}, pad)...)
-					w := refauth.WinCert{Length: uint32(8 + len(body)), Revision: 0x0200, Type: ty, Body: body}
-					c10WinCert(c, w.Bytes(), fill(16, 0x31), "DER body with trailing bytes inside dwLength")
 				}
 			}
 		}
